@@ -111,6 +111,8 @@ def oracle(case):
             return "geometry accessors have the wrong length"
         exp = [Fraction(0)] * nb          # expected content of the current histogram
         raw = [Fraction(0)] * nb          # expected raw counts
+        eexp = None                       # expected error of the current histogram where the text fixes it: sqrt(contents) right after
+        #                                   statistical_error, times every factor applied since (None: not fixed by the text)
         for step, o in enumerate(case["ops"]):
             k = o["op"]
             if k == "fill":
@@ -143,6 +145,7 @@ def oracle(case):
                     return f"operation {step}: add_value({json.dumps(o)}) accepted a NaN value"
                 if not valid:
                     return None
+                eexp = None
                 for j, x in enumerate(vl):
                     x = Fraction(H.num(x))
                     wt = Fraction(1) if wl is None else Fraction(H.num(wl[j]))
@@ -168,6 +171,8 @@ def oracle(case):
                 if not valid:
                     return None
                 exp = [a * f for a, f in zip(exp, fac)]
+                if eexp is not None:
+                    eexp = [None if a is None else a * f for a, f in zip(eexp, fac)]
                 err1 = np.asarray(h.standard_error())
                 for i in range(nb):
                     e0 = float(err0[-1][i])
@@ -179,6 +184,21 @@ def oracle(case):
                 if ret.shape != want.shape or not np.array_equal(ret, want, equal_nan=True) or \
                         not np.array_equal(np.asarray(h.standard_error()), want, equal_nan=True):
                     return f"operation {step}: statistical_error() is {ret.tolist()}, sqrt of the contents is {want.tolist()}"
+                # ... and against the contents the added values / factors define (not the histogram's own contents)
+                eexp = [None] * nb
+                for i in range(nb):
+                    g = float(ret[-1][i])
+                    if exp[i] > 0:
+                        eexp[i] = Fraction(math.sqrt(exp[i]))
+                        if not _eq(g, eexp[i]):
+                            return (f"operation {step}: statistical_error() of bin {i} is {g!r}; the weighted number of added values in it "
+                                    f"(times the scale factors) is {float(exp[i])!r}, its square root {float(eexp[i])!r}")
+                    elif exp[i] < 0 and not math.isnan(g):
+                        return f"operation {step}: statistical_error() of bin {i} is {g!r} for the negative content {float(exp[i])!r}"
+                    elif exp[i] == 0 and float(np.asarray(h.histogram())[-1][i]) == 0:
+                        eexp[i] = Fraction(0)
+                        if g != 0:
+                            return f"operation {step}: statistical_error() of the empty bin {i} is {g!r}"
             elif k == "density":
                 total = sum(exp)
                 valid = total > 0 and all(a >= 0 for a in exp)
@@ -196,10 +216,12 @@ def oracle(case):
                     return (f"operation {step}: after make_density on edges {[float(e) for e in edges]} the contents are {cont}; "
                             f"their integral sum(content*width) is {float(integral)!r}, not 1")
                 exp = [a / ((edges[i + 1] - edges[i]) * total) for i, a in enumerate(exp)]
+                eexp = None
             elif k == "add_hist":
                 H.apply_op(h, o)
                 exp = [Fraction(0)] * nb
                 raw = [Fraction(0)] * nb
+                eexp = None
             else:
                 return None
             cont = [float(x) for x in np.asarray(h.histogram())[-1]]
@@ -210,6 +232,12 @@ def oracle(case):
                             f"the weighted number of added values in it (times the scale factors) is {float(exp[i])!r}")
                 if not _eq(rawc[i], raw[i]):
                     return (f"after operation {step} ({k}): raw count of bin {i} is {rawc[i]!r}, expected {float(raw[i])!r}")
+            if eexp is not None:
+                errc = [float(x) for x in np.asarray(h.standard_error())[-1]]
+                for i in range(nb):
+                    if eexp[i] is not None and not _eq(errc[i], eexp[i]):
+                        return (f"after operation {step} ({k}): standard_error() of bin {i} is {errc[i]!r}; statistical_error gave the "
+                                f"square root of the contents and the factors applied since make it {float(eexp[i])!r}")
     return None
 
 
@@ -312,6 +340,24 @@ def probes():
         out.append({"init": init, "ops": [{"op": "fill", "v": e[0], "w": [1.0]}], "write": None})
         out.append({"init": init, "ops": [{"op": "fill", "v": [e[0]], "w": 2.0}], "write": None})
         out.append({"init": init, "ops": [{"op": "scale", "s": -1.0}], "write": None})
+    # argument types: integer ndarrays / lists of Python ints / numpy scalars for values, weights and factors (integer edges, so that
+    # the integers sit exactly on edges), followed by float operations on the same arrays
+    for init in ({"kind": "tuple", "lo": 0, "hi": 3, "n": 3}, {"kind": "list", "edges": [0.0, 1.0, 3.0, 4.0], "as_int": True},
+                 {"kind": "list", "edges": [-2.0, 0.0, 1.0], "as_int": True, "np": True}):
+        e = H.edges_of(init)
+        nb = len(e) - 1
+        vals = [float(x) for x in e] + [e[0] - 1.0, e[-1] + 1.0]
+        ws = [float(i + 1) for i in range(len(vals))]
+        for how in ("int", "scalar", None):
+            tag = {} if how is None else {"np": how}
+            fills = ([dict({"op": "fill", "v": [int(x) for x in vals] if how is None else vals}, **tag),
+                      dict({"op": "fill", "v": [int(x) for x in vals] if how is None else vals,
+                            "w": [int(x) for x in ws] if how is None else ws}, **tag)] if how != "scalar" else
+                     [dict({"op": "fill", "v": int(x)}, **tag) for x in vals] + [dict({"op": "fill", "v": x, "w": 0.5}, **tag) for x in vals]
+                     + [dict({"op": "fill", "v": int(x), "w": 3}, **tag) for x in vals])
+            out.append({"init": init, "ops": fills + [{"op": "stat_err"}, dict({"op": "scale", "s": 2 if how != "int" else [2.0] * nb}, **tag),
+                                                       {"op": "scale", "s": [i + 1 for i in range(nb)]}, {"op": "fill", "v": e[0], "w": 0.5},
+                                                       {"op": "scale", "s": 0.5}, {"op": "density"}], "write": None})
     return out
 
 
